@@ -173,3 +173,36 @@ CHECKS["C02"] = {
     "outside": ["the goroutine-backed queue between writer and session", "histories longer than k events", "more than two sessions"],
     "assumptions": ["updates are delivered to a state in the order they were queued, none is lost"],
 }
+
+STATE_FILES = ["zz_verif_fixture.go", "zz_verif_world.go"]
+
+CHECKS["C20"] = {
+    "explanation": "Symbolic execution of Mailbox.Append / AppendRegular / actionCreateMessage / actionCreateRecoveredMessage (with rfc822 header handling, imap.NewParsedMessage, MessageHashesMap and GetMessageHash on concrete literals) under a symbolic connector failure schedule, and of the recovery-mailbox guards of State.{AppendOnlyMailbox,Create,Delete,Rename} and Mailbox.{Copy,Move} for every letter case of the name (one symbolic bit per letter).",
+    "harnesses": [
+        {"name": "append", "pkg": "internal/state", "pkgname": "state", "entry": "VerifC20Append",
+         "files": ["zz_verif_c20.go", "zz_verif_c17.go"] + STATE_FILES, "with": ["verifdb"], "gen_stubs": [TX_STUB],
+         "params": {"quick": grid(k=[2], faults=[0, 1, 2]), "thorough": grid(k=[3], faults=[0, 1, 2, 3])},
+         "cover": ["append-ok"]},
+        {"name": "protected", "pkg": "internal/state", "pkgname": "state", "entry": "VerifC20Protected",
+         "files": ["zz_verif_c20.go", "zz_verif_c17.go"] + STATE_FILES, "with": ["verifdb"], "gen_stubs": [TX_STUB],
+         "params": {"quick": [{}], "thorough": [{}]}, "cover": []},
+    ],
+    "stubs": ["state.Connector stub: CreateMessage/AddMessagesToMailbox/... fail on a symbolic schedule (size error or other)", "store.Store stub (map)", "crypto/sha256 -> injective stub (collision freedom assumed)", "internal/verifdb relational model"],
+    "outside": ["LIST visibility of the recovery mailbox (pattern matching goes through regexp)", "header normalisation inside GetMessageHash beyond the two concrete literals", "copy/move out of the recovery mailbox (thorough tier, see DESIGN)"],
+    "assumptions": ["SHA-256 is collision free"],
+}
+
+CHECKS["C14"] = {
+    "explanation": "Symbolic execution of listSuperiors/listInferiors on symbolic names (every name of bounded length over an alphabet containing the delimiter, both delimiters) and of State.{Create,Delete,Rename,Subscribe,Unsubscribe} (with actionCreateMailbox, actionUpdateMailbox, actionDeleteMailbox, renameInbox) on the relational model for symbolic command histories over a pool of well- and ill-formed names, compared after every command with the reference hierarchy model (DESIGN appendix A.5).",
+    "harnesses": [
+        {"name": "paths", "pkg": "internal/state", "pkgname": "state", "entry": "VerifC14Paths",
+         "files": ["zz_verif_c14.go", "zz_verif_c17.go"] + STATE_FILES, "with": ["verifdb"], "gen_stubs": [TX_STUB],
+         "params": {"quick": grid(n=[0, 1, 2, 3, 4]), "thorough": grid(n=[0, 1, 2, 3, 4, 5, 6])}, "cover": []},
+        {"name": "namespace", "pkg": "internal/state", "pkgname": "state", "entry": "VerifC14Namespace",
+         "files": ["zz_verif_c14.go", "zz_verif_c17.go"] + STATE_FILES, "with": ["verifdb"], "gen_stubs": [TX_STUB],
+         "params": {"quick": grid(k=[1, 2]), "thorough": grid(k=[3])}, "cover": []},
+    ],
+    "stubs": ["internal/verifdb relational model (UNIQUE name / remote id)", "state.Connector stub: CreateMailbox returns a fresh remote id"],
+    "outside": ["LIST/LSUB wildcard matching: match() compiles the pattern to a regexp and runs the std regexp engine - not encodable within reach, so 'LIST returns exactly the names RFC 3501 selects' is not decided", "modified UTF-7 names", "connector-side mailbox updates (see C06)"],
+    "assumptions": [],
+}
